@@ -394,6 +394,11 @@ class Check:
                    "case": ev, "count": 1, "how": how or {"module": module, "mode": "trace", "trace": trace}}
             seen[sig] = rec
             self.mismatches.append(rec)
+        dseen = set()
+        for d in r.tuples("DRIFT"):
+            if d[1] not in dseen:
+                dseen.add(d[1])
+                self.mismatches.append({"t": "mismatch", "kind": "drift", "sig": sig_prefix + d[1], "detail": "event %s" % d[2], "case": None})
         if not mism and (not consumed or consumed[-1][1] != n):
             raise ToolError("trace spec %s stopped early without a mismatch line (%s of %d)" % (module, consumed, n))
         self.traces += 1
